@@ -63,6 +63,9 @@ def _cred_pool(rng: Any) -> List[dict]:
         {"version": "v3", "user": "bob", "level": 3, "auth": rng.choice(["md5", "sha1"]), "auth_pass": PASSWORDS[1],
          "priv": rng.choice(["verifstream", "verifstream2"]), "priv_pass": PASSWORDS[2]},
     ]
+    # the same user at a lower security level than it is configured for (RFC 3414 allows any level up to the user's keys)
+    bob = pool[-1]
+    pool.append({k: v for k, v in bob.items() if not k.startswith("priv")} | {"level": 1})
     return pool
 
 
@@ -196,8 +199,13 @@ def execute(plan: dict) -> dict:
         elif c["version"] == "v2c":
             comm[1].add(c["community"].encode())
         else:
-            users.append(agent_user(c))
+            have = [u for u in users if u.name == c["user"].encode()]
+            if not have:
+                users.append(agent_user(c))
+            elif agent_user(c).level > have[0].level:
+                users[users.index(have[0])] = agent_user(c)
     agent = w.add_agent(RefAgent(dict(MIB), communities=comm, users=users))
+    agent.require_exact_level = False      # a user may be addressed at any level its keys allow
     init = plan["initial"]
     from puresnmp.api.raw import Context
     client = w.client(creds[init["credentials"]], timeout=init["timeout"], retries=init["retries"],
